@@ -15,7 +15,7 @@ def validateOrder : List String := ["run", "cancelFunc", "restoreDefaultStorage"
 
 /-- caddytls TLS.Cleanup: where the successor tls app is looked up, and the condition under which one is assumed -/
 def tlsCleanupSuccessorLookup : String := "caddy.ActiveContext().AppIfConfigured(\"tls\")"
-def tlsCleanupSuccessorCond : String := "err==nil&&nextTLS!=nil"
+def tlsCleanupSuccessorCond : String := "err==nil&&nextTLS!=nil&&nextTLS.(*TLS)!=t"
 
 /-- caddytls TLS.Provision: the statements of the block that caches one loaded certificate -/
 def tlsProvisionCacheBlock : List String := ["assign:err<-magic.CacheUnmanagedTLSCertificate", "if:err!=nil", "assign:t.loaded[hash]<-\"\""]
